@@ -139,6 +139,36 @@ EXTRA_SETS: Dict[str, Dict[str, str]] = {
                          "map<string, V> foo_bar = 3; map<int32, W> foobar = 4; map<bool, string> HTTP_code = 5; map<string, double> httpcode = 6; "
                          "message Inner { map<uint32, V> k_v = 1; map<string, W> kv = 2; } Inner inner = 7; }\n",
     },
+    # valid proto3 constructs that carry no fields of their own but that a plugin reads past: custom options declared with
+    # `extend google.protobuf.*Options` at file level and inside a message (and used on files, messages, fields, oneofs,
+    # enums, enum values, services and methods), reserved ranges and names, json_name, packed=false, import public,
+    # empty statements, the largest field number
+    "rare_constructs": {
+        "rcx_options.proto": _P3 + 'package vfrare.opts;\nimport "google/protobuf/descriptor.proto";\n'
+                             "extend google.protobuf.FileOptions { string file_tag = 50000; }\n"
+                             "extend google.protobuf.MessageOptions { int32 msg_level = 50001; }\n"
+                             "extend google.protobuf.FieldOptions { string rule = 50002; bool sensitive = 50003; }\n"
+                             "extend google.protobuf.OneofOptions { bool exclusive = 50004; }\n"
+                             "extend google.protobuf.EnumOptions { string enum_doc = 50005; }\n"
+                             "extend google.protobuf.EnumValueOptions { string label = 50006; }\n"
+                             "extend google.protobuf.ServiceOptions { string host = 50007; }\n"
+                             "extend google.protobuf.MethodOptions { Audit audit = 50008; }\n"
+                             'option (file_tag) = "t";\n'
+                             "message Audit { string who = 1; int32 level = 2; }\n"
+                             'message Account { option (msg_level) = 3; string owner = 1 [(rule) = "nonempty", (sensitive) = true]; '
+                             "extend google.protobuf.FieldOptions { int32 weight = 50010; } int64 balance = 2 [(Account.weight) = 7]; "
+                             'oneof kind { option (exclusive) = true; string iban = 3; int32 legacy_no = 4 [(rule) = "positive"]; } repeated Audit trail = 5; }\n'
+                             'enum Tier { option (enum_doc) = "tiers"; TIER_FREE = 0 [(label) = "free"]; TIER_PAID = 1 [(label) = "paid"]; }\n'
+                             'service Bank { option (host) = "bank"; rpc Open(Account) returns (Audit) { option (audit) = { who: "x" level: 2 }; } rpc Watch(Account) returns (stream Audit); }\n',
+        "rcx_misc.proto": _P3 + 'package vfrare.misc;\nimport public "rcx_shared.proto";\n;\noption java_package = "com.example";\noption optimize_for = SPEED;\n'
+                          "message M { reserved 2, 15, 9 to 11, 1000 to max; reserved \"old\", \"older\"; int32 a = 1; string b = 3 [json_name = \"B_custom\"]; "
+                          "repeated int32 unpacked = 4 [packed = false]; repeated sint64 packed_explicit = 5 [packed = true]; ; "
+                          "vfrare.shared.Shared s = 6; map<string, vfrare.shared.Shared> sm = 7; enum E { reserved 5, 7 to 9; reserved \"GONE\"; E_ZERO = 0; E_ONE = 1; } E e = 8; "
+                          "bytes last = 12 [ctype = CORD, deprecated = false]; }\n"
+                          "message Max { int32 biggest = 536870911; int32 near_reserved_low = 18999; int32 near_reserved_high = 20000; }\n",
+        "rcx_shared.proto": _P3 + "package vfrare.shared;\nmessage Shared { int32 n = 1; }\n",
+        "rcx_user.proto": _P3 + 'package vfrare.user;\nimport "rcx_misc.proto";\nmessage U { vfrare.misc.M m = 1; vfrare.shared.Shared via_public_import = 2; vfrare.misc.M.E e = 3; }\n',
+    },
     # package names that are string prefixes of each other without being parent and child
     "prefix_packages": {
         "pp_cart.proto": _P3 + 'package vfshop2.cart;\nimport "pp_cartoon.proto";\nimport "pp_cartoon_types.proto";\nmessage Cart { vfshop2.cartoon.Toon toon = 1; '
